@@ -69,9 +69,29 @@ BoxedOptionField ==
 Known(e, prop, d) ==
     LET v == ProbeVal(e) IN
     IF prop = "C03" THEN
-      { k \in {"C03-boxed-option-serializes-null"} :
-          d = "C03/InvalidAfterRoundTrip" /\ BoxedOptionField
-          /\ Contained(Prune(v), Prune(e.out)) /\ JEq(Prune(v), Prune(e.out)) }
+      { k \in {"C03-boxed-option-serializes-null", "C03-flattened-anyof-objects-lose-members",
+               "C03-null-payload-variant-serialises-as-string"} :
+          CASE k = "C03-boxed-option-serializes-null" ->
+                 d = "C03/InvalidAfterRoundTrip" /\ BoxedOptionField
+                 /\ Contained(Prune(v), Prune(e.out)) /\ JEq(Prune(v), Prune(e.out))
+            [] k = "C03-flattened-anyof-objects-lose-members" ->
+                 (* an anyOf of overlapping object schemas, which the pinned analysis (rightly) does not
+                    prove exclusive and which is rendered as the struct of flattened optional members:
+                    serde reads each flattened Option<branch> independently and writes back only what
+                    the branches that matched hold *)
+                 /\ d \in {"C03/InvalidAfterRoundTrip", "C03/DeclaredDataLost"}
+                 /\ SHas(T, "anyOf") /\ AnyOfRoute(T.anyOf, cur.defs) = "flattened"
+                 /\ \A i \in DOMAIN T.anyOf : IsObjBranch(T.anyOf[i])
+                 /\ \E i \in DOMAIN items : items[i].mod = "" /\ items[i].kind = "struct" /\ items[i].name = "T"
+                       /\ Len(items[i].fields) = Len(T.anyOf)
+                       /\ \A j \in DOMAIN items[i].fields : items[i].fields[j].flatten
+            [] k = "C03-null-payload-variant-serialises-as-string" ->
+                 (* an externally tagged branch whose payload schema is null becomes a unit variant:
+                    {"N": null} is read and written back as "N" *)
+                 /\ d = "C03/InvalidAfterRoundTrip" /\ SHas(T, "oneOf") /\ v.t = "obj" /\ Len(v.k) = 1
+                 /\ v.v[1].t = "null" /\ e.out.t = "str"
+                 /\ \E i \in DOMAIN T.oneOf : IsObjBranch(T.oneOf[i]) /\ v.k[1] \in DOMAIN T.oneOf[i].properties
+                       /\ SHas(T.oneOf[i].properties[v.k[1]], "type") /\ T.oneOf[i].properties[v.k[1]].type = "null" }
     ELSE
     { k \in {"C02-variants-share-property-name", "C02-integer-narrower-than-schema", "C02-mixed-open-closed-variants",
              "C02-open-single-property-branch-as-external-variant", "C02-anyof-string-enums-flattened"} :
